@@ -97,10 +97,21 @@ def register_executor(reg):
   keeps_first = 'implies(old(self._last_outcome) is not None, self._last_outcome is old(self._last_outcome))'
   lo_inv = 'self._last_outcome is None or self._last_outcome.is_terminal'
 
+  recs = 'self.test_state.test_record.phases'
   c = reg.contract(TE, 'TestExecutor._execute_phase', props=['C01', 'C02'])
   c.param('phase', 'ref:PhaseDescriptor').param('subtest_rec', 'opt:ref:SubtestRecord').param('in_teardown', 'bool')
   c.returns('enum:' + ER)
+  c.ghost('diag_calls', 'int').ghost('body_starts', 'int')
   c.requires('running', live).requires('remembered_outcome_is_terminal', lo_inv)
+  c.requires('no_phase_running', 'self.test_state.running_phase_state is None')
+  c.requires('not_profiling', 'not self._run_phases_with_profiling')
+  c.requires('valid_options', '(phase.options.timeout_s is None or (phase.options.timeout_s >= 0 and phase.options.timeout_s < 2**60)) and '
+             '(phase.options.repeat_limit is None or phase.options.repeat_limit >= 0)')
+  c.ensures('an_ERROR_record_makes_the_run_terminal',
+            'implies(not phase.options.repeat_on_timeout and not phase.options.force_repeat and self._last_outcome is None, '
+            'forall_int(lambda j: implies(old(len({r})) <= j and j < len({r}), {r}[j].outcome is not test_record.PhaseOutcome.ERROR)))'.format(r=recs))
+  c.ensures('records_only_appended', 'len({r}) >= old(len({r})) and forall_int(lambda j: implies(0 <= j and j < old(len({r})), {r}[j] is old(content({r}))[j]))'.format(r=recs))
+  c.ensures('phase_slot_released', 'self.test_state.running_phase_state is None')
   c.ensures('remembered_outcome_is_terminal', lo_inv)
   c.ensures('first_terminal_event_decides', keeps_first)
   c.ensures('terminal_result_is_remembered', 'implies(result is %s.TERMINAL, %s)' % (ER, term))
@@ -110,10 +121,9 @@ def register_executor(reg):
             'subtest_rec.outcome is test_record.SubtestOutcome.FAIL)')
   c.modifies('self._last_outcome', 'self._last_execution_unit', 'subtest_rec.outcome', 'list(self._phase_profile_stats)',
              'list(self.test_state.test_record.phases)', 'self.test_state.running_phase_state', 'self.test_state._running_test_api',
-             'self._phase_exec._current_phase_thread', 'PhaseRecord.outcome', 'PhaseRecord.result', 'PhaseRecord.marginal',
-             'PhaseRecord.end_time_millis', 'PhaseRecord.start_time_millis', 'PhaseRecord.options', 'PhaseRecord.measurements',
-             'PhaseRecord.subtest_name', 'self.test_state.test_record.dut_id', 'list(self.test_state.test_record.diagnoses)',
-             'list(self.test_state.test_record.log_records)')
+             'self._phase_exec._current_phase_thread', '*user', 'event.flag', 'threading.Thread.alive',
+             'DiagnosesStore._diagnoses_by_results', 'DiagnosesStore._diagnoses', 'list(self.test_state.test_record._cached_phases)',
+             'Measurement.outcome', 'Measurement.marginal', 'Measurement._notification_cb')
 
   c = reg.contract(TE, 'TestExecutor._execute_checkpoint', props=['C01', 'C02'])
   c.param('checkpoint', 'ref:Checkpoint').param('subtest_rec', 'opt:ref:SubtestRecord').param('in_teardown', 'bool')
@@ -132,6 +142,12 @@ def register_executor(reg):
   c.requires('running', 'self.test_state is not None')
   c.requires('not_finalized', 'not (%s._status is test_state.TestState.Status.COMPLETED)' % ts)
   c.requires('records_have_outcomes', 'all(p.outcome is not None for p in %s.test_record.phases)' % ts)
+  # INV-ERR, maintained by _execute_phase (see an_ERROR_record_makes_the_run_terminal; known finding for forced repeats)
+  c.requires('an_ERROR_record_made_the_run_terminal',
+             'implies(not (%s), all(p.outcome is not test_record.PhaseOutcome.ERROR for p in %s.test_record.phases))' % (term, ts))
+  c.ensures('PASS_means_no_FAIL_or_ERROR_record',
+            'implies(%s.test_record.outcome is test_record.Outcome.PASS, all(p.outcome is not test_record.PhaseOutcome.ERROR and '
+            'p.outcome is not test_record.PhaseOutcome.FAIL for p in %s.test_record.phases))' % (ts, ts))
   out = ts + '.test_record.outcome'
   TO = 'test_record.Outcome'
   c.ensures('finalized', '%s._status is test_state.TestState.Status.COMPLETED' % ts)
